@@ -186,6 +186,12 @@ def search(ctx):
         if why:
             found.append({"clause": why, "input": {"op": repr(op), "reply": repr(rep)}, "observed": detail, "size": 1, "case": None,
                           "healthy_case": repr((op, rep))})
+    for t, gaps, size in FRACTIONAL:
+        nh += 1
+        why, detail = fractional_idle(t, gaps, size)
+        if why:
+            found.append({"clause": why, "input": {"pool_idle_timeout": t, "idle_gaps": gaps, "max_pool_size": size}, "observed": detail, "size": 1, "case": None,
+                          "fractional_case": repr((t, gaps, size))})
     nc = 0
     for cfg in CONNECT_CFGS:
         for pos in range(0, 12):
@@ -282,6 +288,33 @@ def healthy_reuse(op, rep):
     return None, None
 
 
+def fractional_idle(timeout, gaps, size):
+    """pool_idle_timeout is a number of seconds, not necessarily whole: three healthy calls with the given idle gaps before the
+    second and third; a gap <= timeout must reuse the connection, a longer one must close it and open another"""
+    c = dict(tcp=False, default_noreply=False)
+    ops = [(3, b"z", None)] * 3
+    clock, t = [], 0
+    for g in [0] + list(gaps):
+        t += g
+        clock += [t, t]
+    r = cs.run_pooled(c, (size, timeout), ops, [], [], (), clock, {0: b"END\r\n", 1: b"END\r\n", 2: b"END\r\n"})
+    results, world = r[0], r[5]
+    sids = [sorted({sid for sid, _ in world.sent_by_op.get(i, [])}) for i in range(3)]
+    for i, g in enumerate(gaps, 1):
+        if g <= timeout and sids[i] != sids[i - 1]:
+            return ("pool_idle_timeout=%r: a healthy connection idle for %r s (not longer than the timeout) was not reused: calls %d and %d went out "
+                    "on sockets %r and %r" % (timeout, g, i - 1, i, sids[i - 1], sids[i])), repr(results)
+        if g > timeout and sids[i] == sids[i - 1]:
+            return "pool_idle_timeout=%r: a connection idle for %r s (longer than the timeout) was reused" % (timeout, g), repr(results)
+        if g > timeout and not all(sk.closed for sk in world.socks if sk.sid in sids[i - 1]):
+            return "pool_idle_timeout=%r: the connection idle for %r s was dropped and not closed" % (timeout, g), repr(results)
+    return None, None
+
+
+FRACTIONAL = [(t, gaps, size) for t in (0.5, 2.5, 3, 0.001) for gaps in ([t / 2, t], [t, t * 1.5], [t * 1.5, t / 2], [t - t / 8, t + t / 8])
+              for size in (1, 2, 1 << 31)]
+
+
 CONNECT_CFGS = [dict(tcp=False, keepalive=True, default_noreply=False), dict(tcp=True, naddr=2, keepalive=True, nodelay=True, default_noreply=False),
                 dict(tcp=True, naddr=1, tls=True, default_noreply=False)]
 
@@ -309,6 +342,10 @@ def replay(ctx, obj):
     if v and v.get("connect_case"):
         why, detail = connect_failure(*eval(v["connect_case"]))
         print(why or "everything opened was closed", detail or "")
+        return bool(why)
+    if v and v.get("fractional_case"):
+        why, detail = fractional_idle(*eval(v["fractional_case"]))
+        print(why or "idle connections reused / closed as the timeout says", detail or "")
         return bool(why)
     if v and v.get("healthy_case"):
         why, detail = healthy_reuse(*eval(v["healthy_case"]))
